@@ -107,7 +107,14 @@ def check_packet(ctx, P, ptype, nsp, pid, data, rng, cls):
                           % (R.NAMES[ptype], str(e)), w)
             return
         raise
-    enc = p.encode()
+    try:
+        enc = p.encode()
+    except Exception as e:
+        # every payload the generators build is JSON-compatible apart from
+        # its byte strings, so a well-formed packet always has a frame
+        ctx.violation(None, 'encode() raised %r for a well-formed %s packet'
+                      % (e, R.NAMES[ptype]), w)
+        return
     if isinstance(enc, list):
         text, atts = enc[0], enc[1:]
     else:
